@@ -129,7 +129,7 @@ View == <<MS, epoch, G, ticks>>
 
 Inv == StateInv(MS, G)
 StepProps == /\ WithdrawExact /\ EscrowOnlyOwnMoves /\ EndLegit /\ IdsFresh /\ PublishRules /\ PublishFunded
-             /\ ActivationRules /\ ActivatedOnce /\ RejectedIsNoop
+             /\ ActivationRules /\ ActivatedOnce /\ ActivatedOnceInCall /\ TerminationEndsDeals /\ RejectedIsNoop
 StepOK == [][StepProps]_mcvars
 
 \* transition tour
